@@ -403,6 +403,14 @@ def compare_step(r, m):
             got, exp = st.parse(r.res.out), m.out
             if st.name == "status":
                 exp = sorted(exp)
+            if st.name == "reflog":
+                def _m(lines):
+                    out = []
+                    for l in lines:
+                        t = l.split(b" ", 3)
+                        out.append(b" ".join(t[:3]) + (b" " + t[3] if len(t) > 3 and t[2] == b"commit" else b" *"))
+                    return out
+                got, exp = _m(got), _m(exp)
             if got != exp:
                 d.append("output: goit=%r model=%r" % (got[:6], exp[:6]))
     if s.inited != m.inited:
